@@ -293,11 +293,23 @@ def exec_step(step, sess, chains, audit):
             obs['repr'] = [repr(c), str(c)][:1]
             _ = [repr(t) + t._repr_markdown_() for t in c.tasks.values()]
             _ = c._repr_markdown_()
+        elif what == 'deps_seq':
+            # the same closure queries repeated around include_self queries and a force(): answers must not drift
+            def plain():
+                return {n: [sorted(x.fullname for x in c.required_tasks(t)), sorted(x.fullname for x in c.dependent_tasks(t))] for n, t in c.tasks.items()}
+            obs['plain1'] = plain()
+            obs['with_self'] = {n: [sorted(x.fullname for x in c.required_tasks(n, include_self=True)),
+                                    sorted(x.fullname for x in c.dependent_tasks(n, include_self=True))] for n, t in c.tasks.items()}
+            for n in step.get('force', []):
+                c.force(n)
+            obs['plain2'] = plain()
+            obs['dependent_on'] = {n: sorted(m for m, u in c.tasks.items() if u is not t and c.is_task_dependent_on(u, t)) for n, t in c.tasks.items()}
         elif what == 'deps':
             obs['deps'] = {n: sorted(x.fullname for x in c.required_tasks(t)) for n, t in c.tasks.items()}
             obs['dependents'] = {n: sorted(x.fullname for x in c.dependent_tasks(t)) for n, t in c.tasks.items()}
     elif op == 'arm_fault':
-        rt.STATE['faults'][step['task']] = {'on': rt.STATE['invocations'].get(step['task'], 0) + step.get('after', 1), 'kind': step['kind']}
+        fn = get_chain().tasks[step['task']].fullname     # a shared object runs under its own full name
+        rt.STATE['faults'][fn] = {'on': rt.STATE['invocations'].get(fn, 0) + step.get('after', 1), 'kind': step['kind']}
     elif op == 'disarm':
         rt.STATE['faults'].clear()
     elif op == 'drop':
